@@ -14,7 +14,7 @@ False at construction and is written only inside run_sprout under the option tes
 hibernates; (R18.3) polarity: awake iff the deme is a key of this round's seeds, asleep otherwise, and the flagged demes are
 the active non-leaf ones; (R18.4) the round only flags demes that took part in it: the collection it iterates is taken
 before the sprouting call creates new demes (a deme created by the round starts awake); (R18.5) a hibernating deme cannot
-evaluate or change its history because the only caller of its evaluating methods is the skipped step (with C06's R06.6). (R18.9) the options dictionary is never written while it can be the module-level default; (R18.10) only the deme itself writes its history; R18.1 / R18.6 concern hibernation only (a skip under GSC-true, a filter reading the flag are other properties' business)."""
+evaluate or change its history because the only caller of its evaluating methods is the skipped step (with C06's R06.6). (R18.9) the options dictionary is never written while it can be the module-level default; (R18.10) only the deme itself writes its history; R18.1 / R18.6 concern hibernation only (a skip under GSC-true, a filter reading the flag are other properties' business). (R18.11) progress: run_metaepoch / run_step have a provision for the state in which every active deme hibernates - on the pinned tree they have none (known finding: metaepochs pass without an evaluation, findings/C18-hibernation-stall)."""
 NOTE = """The liveness clause ('a metaepoch never passes without at least one evaluation') quantifies over run histories and is
 not decided statically; it is left open (DESIGN.md §5 C18)."""
 TECHNIQUE = "path-sensitive typestate over the CFGs of run_metaepoch/run_sprout + who-may-write + dominance (snapshot-before-mutation) check"
